@@ -26,6 +26,7 @@ LEVEL_TEXT = ("Exploration by generated-input search: for generated documents (s
               "RELATIVE: tree keyed by relative location with each array level compacted to the rank of its selected indices; "
               "ROOT: the same under the match's own location); one output entry per container match with >= 1 selection; the "
               "document must be unchanged (strict JSON equality and container identity) after every call.")
+LEVEL_TEXT += ' Flat projections are judged also when selections overlap (one selected node inside another) or are unordered.'
 BUDGET_S = {"quick": 60, "thorough": 400}
 RULE = ("Relative queries from names, non-negative indices, positive-step slices, wildcards and nesting, biased to be ascending "
         "per array. The statement's precondition (per-array selections first appear in ascending order) is checked on the actual "
